@@ -94,6 +94,9 @@ type ConnView struct {
 // Deadlines returns all pending expiry instants, sorted, de-duplicated.
 func (m *Model) Deadlines() []time.Time {
 	out := append([]time.Time(nil), m.ExtraDeadlines...)
+	if m.Cfg.Policy == "denyBlate" && time.Since(Epoch) < PolicyFlip {
+		out = append(out, Epoch.Add(PolicyFlip)) // the instant the operator's verdict changes
+	}
 	for _, a := range m.Allocs {
 		out = append(out, a.Exp)
 		for _, e := range a.Perms {
@@ -131,10 +134,18 @@ func (m *Model) Allowed(ip net.IP) bool {
 		return false
 	case "denyB":
 		return !ip.Equal(PeerSpec["B"].IP)
+	case "denyBlate":
+		// the operator changes his mind: B is admitted during the first 5 s of the run, refused afterwards
+		return !ip.Equal(PeerSpec["B"].IP) || time.Since(Epoch) < PolicyFlip
 	}
 
 	return true
 }
+
+// Epoch is the start of every synctest bubble clock; PolicyFlip the age at which policy "denyBlate" starts refusing B.
+var Epoch = time.Date(2000, 1, 1, 0, 0, 0, 0, time.UTC)
+
+const PolicyFlip = 5 * time.Second
 
 func famOf(ip net.IP) int {
 	if ip.To4() != nil {
@@ -158,6 +169,7 @@ func (a *MAlloc) ChanByPeer(p *net.UDPAddr) (uint16, bool) {
 // Key is a canonical rendering of the model with times as remaining durations.
 func (m *Model) Key(now time.Time) string {
 	var names []string
+
 	for n := range m.Allocs {
 		names = append(names, n)
 	}
@@ -191,6 +203,14 @@ func (m *Model) Key(now time.Time) string {
 		}
 	}
 	fmt.Fprintf(&sb, "dead=%d", len(m.Dead))
+	if m.Cfg.Policy == "denyBlate" {
+		// the phase of the time-dependent policy is part of the state (remaining time until the verdict changes)
+		if d := Epoch.Add(PolicyFlip).Sub(now); d > 0 {
+			fmt.Fprintf(&sb, " policy-flips-in=%v", d)
+		} else {
+			sb.WriteString(" policy-flipped")
+		}
+	}
 
 	return sb.String()
 }
